@@ -467,11 +467,68 @@ def _op_of_callable(fn, H):
     return None
 
 
+class _KExpander(Expander):
+    """Expander for a fold loop that a combinator class K *inherits* (template method): calls of hook methods on self
+    (`self._combine(acc, value)`, `self._finish(acc)`) are replaced by the body of K's own definition of the hook
+    when that is one returned expression over its parameters."""
+
+    def __init__(self, prog, func, typer, K):
+        super().__init__(prog, func, typer)
+        self.K = K
+
+    def expand(self, expr, at=None, **kw):
+        v = super().expand(expr, at, **kw)
+        return self._hooks(v, 0) if v is not None else v
+
+    def _hooks(self, v, depth):
+        from sa.flow import subst
+        prog, K, me = self.prog, self.K, self.func.params[0] if self.func.params else 'self'
+        outer = self
+
+        class T(ast.NodeTransformer):
+            def visit_Call(self, c):
+                self.generic_visit(c)
+                fn = c.func
+                if not (isinstance(fn, ast.Attribute) and _name(fn.value, me)) or depth > 3:
+                    return c
+                h = prog.find_method(K, unmangle(fn.attr))
+                if h is None or h.kind not in ('method', 'static') or h.qual == outer.func.qual:
+                    return c
+                body = [st for st in h.body if not (isinstance(st, ast.Expr) and isinstance(st.value, ast.Constant))]
+                if len(body) != 1 or not isinstance(body[0], ast.Return) or body[0].value is None:
+                    return c
+                if any(isinstance(a, ast.Starred) for a in c.args) or any(k.arg is None for k in c.keywords):
+                    return c
+                params = list(h.params)[1:] if h.kind == 'method' else list(h.params)
+                sub = {p: a for p, a in zip(params, facts.bound_args(c, h, drop_self=(h.kind == 'method'))) if a is not None}
+                if set(params) - set(sub):
+                    return c
+                if h.kind == 'method':
+                    sub[h.params[0]] = _e(me)
+                return outer._hooks(subst(body[0].value, sub), depth + 1)
+        import copy
+        return T().visit(copy.deepcopy(v))
+
+
+def _fold_expander(prog, f, typer, K):
+    return _KExpander(prog, f, typer, K) if f.cls and f.cls != K else Expander(prog, f, typer)
+
+
+class _Anchor:
+    """stands in for a `for` statement when the operands are iterated by a comprehension"""
+
+    def __init__(self, node, it):
+        self.node, self.iter, self.expanded = node, it, it
+
+
 def _field_iter(ctx, o, f, loop, K, H=None):
     """the loop iterates the operand list stored by K.__init__, in order.  returns True when recognised and fine"""
     prog = ctx.prog
     ex = Expander(prog, f, ctx.typer)
-    it = ex.expand(loop.iter, cfg_of(f).node_of(loop))
+    if isinstance(loop, _Anchor):
+        it, loop = loop.expanded, loop.node
+    else:
+        it = ex.expand(loop.iter, cfg_of(f).node_of(loop))
     if H is not None:
         from sa.flow import subst
         it = subst(it, H.sub)
@@ -479,10 +536,10 @@ def _field_iter(ctx, o, f, loop, K, H=None):
     m = match("list($x)", it) or match("tuple($x)", it) or match("iter($x)", it)
     core = m['x'] if m else it
     if match("reversed($x)", core) or (isinstance(core, ast.Subscript) and isinstance(core.slice, ast.Slice)):
-        o.refute(f, loop, loop.iter, f"{K} folds `{src(it)}`: operands are dropped or taken out of order")
+        o.refute(f, loop, it, f"{K} folds `{src(it)}`: operands are dropped or taken out of order")
         return False
     if not (isinstance(core, ast.Attribute) and isinstance(core.value, ast.Name) and core.value.id == selfname):
-        o.undecided(f, loop, loop.iter, "the fold does not iterate a field of the combinator")
+        o.undecided(f, loop, it, "the fold does not iterate a field of the combinator")
         return False
     field = core.attr
     init = prog.find_method(K, '__init__')          # the class's own constructor or the one it inherits
@@ -543,6 +600,163 @@ def _elem_call(ctx, o, f, loop, H=None):
         o.refute(f, c, c, f"operands are asked about `{src(seen)}` instead of the date `{date}` the combinator was asked about")
         return None
     return _e(f"{tgt.id}.get_available_units({src(arg)})")
+
+
+# ------------------------------------------------------------------------------------------ folds without a loop
+def _operand_stream(comp, date):
+    """`[u for u in (c.get_available_units(date) for c in IT) if u is not None]` and its flat / walrus spellings
+    -> (IT, filter) with filter in 'none' (exactly the None values are dropped) | 'all' (nothing dropped);
+    None when the comprehension is something else"""
+    if not isinstance(comp, (ast.ListComp, ast.GeneratorExp)) or len(comp.generators) != 1:
+        return None
+    g = comp.generators[0]
+    if not isinstance(g.target, ast.Name) or g.is_async:
+        return None
+    x = g.target.id
+
+    def is_elem(e, var):
+        m = match("$c.get_available_units($d)", e)
+        return bool(m) and _name(m['c'], var) and _name(m['d'], date)
+
+    def not_none(t, e_ok):
+        m = match("$e is not None", t)
+        return bool(m) and e_ok(m['e'])
+    inner = g.iter
+    mi = match("list($x)", inner) or match("tuple($x)", inner)
+    inner = mi['x'] if mi else inner
+    if isinstance(inner, (ast.ListComp, ast.GeneratorExp)) and len(inner.generators) == 1 and not inner.generators[0].ifs \
+            and isinstance(inner.generators[0].target, ast.Name) and is_elem(inner.elt, inner.generators[0].target.id) and _name(comp.elt, x):
+        if not g.ifs:
+            return inner.generators[0].iter, 'all'
+        if len(g.ifs) == 1 and not_none(g.ifs[0], lambda e: _name(e, x)):
+            return inner.generators[0].iter, 'none'
+        return None
+    if is_elem(comp.elt, x):
+        if not g.ifs:
+            return g.iter, 'all'
+        if len(g.ifs) == 1 and not_none(g.ifs[0], lambda e: is_elem(e, x)):
+            return g.iter, 'none'
+        return None
+    if isinstance(comp.elt, ast.Name) and len(g.ifs) == 1:
+        m = match("($u := $e) is not None", g.ifs[0])
+        if m and isinstance(m['u'], ast.Name) and m['u'].id == comp.elt.id and is_elem(m['e'], x):
+            return g.iter, 'none'
+    return None
+
+
+def _reduce_of(v, S, H=None):
+    """v as a left fold of the stream S: sum(S) / math.prod(S) / reduce(op, S) -> (operator class, swapped, empty result)
+    where empty result is 'raise' | the constant the call yields for an empty stream"""
+    def is_s(x):
+        m = match("list($x)", x) or match("tuple($x)", x) or match("iter($x)", x)
+        return same(x, S) or (m is not None and same(m['x'], S))
+    m = match("sum($s)", v)
+    if m and is_s(m['s']):
+        return ast.Add, False, 0
+    m = match("math.prod($s)", v) or match("prod($s)", v)
+    if m and is_s(m['s']):
+        return ast.Mult, False, 1
+    m = match("functools.reduce($f, $s)", v) or match("reduce($f, $s)", v)
+    if m and is_s(m['s']):
+        oc = _op_of_callable(m['f'], H)
+        if oc is not None:
+            return oc[0], oc[1], 'raise'
+    return None
+
+
+def _functional(ctx, o, orr, osb, f, K, d):
+    """get_available_units of an arithmetic combinator written without a loop: a None-filtered stream of the operands'
+    values, reduced by sum / prod / reduce, None for the empty stream (and for a negative difference).
+    returns False when the function is not in that form (nothing reported)"""
+    prog = ctx.prog
+    want = OPS[d]
+    date = f.params[1] if len(f.params) > 1 else None
+    if date is None or any(isinstance(n, (ast.For, ast.While)) for n in walk_no_nested(f.node)):
+        return False
+    ex = Expander(prog, f, ctx.typer)
+    cfg = cfg_of(f)
+    streams = []
+    for n in walk_no_nested(f.node):
+        if isinstance(n, (ast.ListComp, ast.GeneratorExp)):
+            cn = cfg.node_containing(n)
+            xn = ex.expand(n, cn) if cn is not None else n
+            st = _operand_stream(xn, date)
+            if st is not None and not any(any(y is n for y in ast.walk(x)) for x, _, _ in streams if x is not n):
+                streams.append((n, xn, st))
+    # an inner generator of a recognised stream is not a stream of its own
+    streams = [t for t in streams if not any(t[0] is not u[0] and any(y is t[0] for y in ast.walk(u[0])) for u in streams)]
+    if len(streams) != 1:
+        return False
+    node, S, (it, filt) = streams[0]
+    if not _field_iter(ctx, osb, f, _Anchor(node, it), K):
+        return True
+    if filt != 'none':
+        osb.refute(f, node, node, f"{K} folds the values of all operands, including None (no information): exactly the None operands must be skipped")
+        return True
+    red = None
+    for n in walk_no_nested(f.node):
+        if isinstance(n, ast.Call):
+            cn = cfg.node_containing(n)
+            xn = ex.expand(n, cn) if cn is not None else n
+            r_ = _reduce_of(xn, S)
+            if r_ is not None:
+                if red is not None and not same(red[1], xn):
+                    return False
+                red = (n, xn, r_)
+    if red is None:
+        return False
+    rnode, R, (opk, swapped, empty) = red
+    osb.site(f, node, f"{K}: None operands filtered out, the others folded left to right by {src(R.func)}")
+    if opk is not want:
+        o.refute(f, rnode, rnode, f"`{d}` builds {K}, whose fold applies `{SYM.get(opk, opk.__name__)}` instead of `{SYM[want]}`")
+    elif swapped and want in (ast.Sub, ast.Div):
+        o.refute(f, rnode, rnode, f"{K} computes `operand {SYM[want]} accumulator`: operands of `{SYM[want]}` are swapped")
+    else:
+        o.site(f, rnode, f"{K} folds with {SYM[want]}")
+    # ---- result: None for the empty stream, the fold otherwise (Sub: None when negative)
+    okt = True
+    for nonempty in (False, True):
+        for sr in ((None,) if not nonempty else (-1, 0, 1)):
+            env = [(S, [1] if nonempty else [], 'exact')]
+            m = match("list($x)", S)
+            if nonempty:
+                env.append((R, sr, 'sign'))
+            r = run_block(f.body, Ev(env), ex)
+            case = "no operand has information" if not nonempty else f"the fold is {SIGN_NAME[sr]}"
+            if r.kind == 'unknown':
+                orr.undecided(f, r.stmt, r.stmt, f"{K} result ({case}): {r.why}")
+                return True
+            if r.kind != 'return':
+                orr.undecided(f, r.stmt or f.node, r.stmt or f.name, f"{K} result ({case}): {r.kind}")
+                return True
+            v = r.value
+            isnone = isinstance(v, ast.Constant) and v.value is None
+            if not nonempty:
+                if same(v, R):
+                    if empty == 'raise':
+                        orr.refute(f, r.stmt, r.stmt, f"{K} reduces an empty stream when no operand has information: reduce() of an empty sequence raises TypeError, expected None")
+                    else:
+                        orr.refute(f, r.stmt, r.stmt, f"{K} returns {empty} when no operand has information (`{src(R)[:40]}` of nothing), expected None")
+                    okt = False
+                elif not isnone:
+                    orr.refute(f, r.stmt, r.stmt, f"{K} returns `{src(v)[:50]}` when no operand has information, expected None")
+                    okt = False
+                continue
+            none_expected = want is ast.Sub and sr == -1
+            if none_expected and not isnone:
+                orr.refute(f, r.stmt, r.stmt, f"{K} returns `{src(v)[:50]}` although the difference is negative: expected None (no capacity)")
+                okt = False
+            elif not none_expected and not same(v, R):
+                what = "exactly zero" if sr == 0 else SIGN_NAME[sr]
+                if isnone or isinstance(v, ast.Constant):
+                    orr.refute(f, r.stmt, r.stmt, f"{K} returns `{src(v)[:50]}` when the result is {what}: expected the computed value")
+                    okt = False
+                else:
+                    orr.undecided(f, r.stmt, r.stmt, f"{K} returns `{src(v)[:50]}` ({case})")
+                    return True
+    if okt:
+        orr.site(f, rnode, f"{K}: " + ("None iff empty or < 0" if want is ast.Sub else "None iff empty, else the fold"))
+    return True
 
 
 def _acc_name(pre, loop):
@@ -611,14 +825,18 @@ def _folds(ctx, table):
     def attempt(c2, K, d, df, dret):
         ro, rr, rs = Rec(), Rec(), Rec()
         f = c2.prog.find_method(K, 'get_available_units')
-        if f is None or f.cls != K:
-            ro.undecided(df, dret, K, f"{K} has no get_available_units of its own")
+        if f is None:
+            ro.undecided(df, dret, K, f"{K} has no get_available_units in the package")
             return ro, rr, rs
         sp = _loop_split(f)
         H = None
         g = f
         if sp is None:
             fh = _fold_helper(c2, f)
+            if fh is None and OPS[d] is not None and f.cls == K:
+                ro2, rr2, rs2 = Rec(), Rec(), Rec()
+                if _functional(c2, ro2, rr2, rs2, f, K, d):
+                    return ro2, rr2, rs2
             if fh is None:
                 ro.undecided(f, f.node, K, "get_available_units is not `init; for operand in operands: ...; return` "
                                            "(nor a call of a helper of that shape)")
@@ -658,8 +876,53 @@ def _folds(ctx, table):
     ctx.guarded(o, body)
 
 
+def _result_var_form(pre, loop, tail):
+    """`found = None; for ..: if ..: found = v; break; return found`  ->  the loop body and tail with `return v` /
+    `return None` in their place (the two spellings are the same function); None when not in that form"""
+    import copy
+    if len(tail) != 1 or not isinstance(tail[0], ast.Return) or not isinstance(tail[0].value, ast.Name):
+        return None
+    X = tail[0].value.id
+    inits = [st for st in pre if isinstance(st, (ast.Assign, ast.AnnAssign))
+             and any(_name(t, X) for t in (st.targets if isinstance(st, ast.Assign) else [st.target]))]
+    if len(inits) != 1 or not (isinstance(inits[0].value, ast.Constant) and inits[0].value.value is None):
+        return None
+    ok = [True]
+
+    def conv(stmts):
+        out = []
+        i = 0
+        while i < len(stmts):
+            st = stmts[i]
+            if isinstance(st, ast.Assign) and len(st.targets) == 1 and _name(st.targets[0], X):
+                if i + 1 < len(stmts) and isinstance(stmts[i + 1], ast.Break):
+                    out.append(ast.copy_location(ast.Return(value=st.value), st))
+                    i += 2
+                    continue
+                ok[0] = False
+            if isinstance(st, ast.If):
+                st2 = copy.copy(st)
+                st2.body, st2.orelse = conv(st.body), conv(st.orelse)
+                out.append(st2)
+            else:
+                if any(isinstance(n, ast.Name) and n.id == X and isinstance(n.ctx, ast.Store) for n in ast.walk(st)) or isinstance(st, ast.Break):
+                    ok[0] = False
+                out.append(st)
+            i += 1
+        return out
+    body = conv(loop.body)
+    if not ok[0]:
+        return None
+    loop2 = copy.copy(loop)
+    loop2.body = body
+    return loop2, [ast.copy_location(ast.Return(value=ast.Constant(value=None)), tail[0])]
+
+
 def _disjunction(ctx, o, f, K, pre, loop, tail):
     prog = ctx.prog
+    rv = _result_var_form(pre, loop, tail)
+    if rv is not None:
+        loop, tail = rv
     if not _field_iter(ctx, o, f, loop, K):
         return
     v = _elem_call(ctx, o, f, loop)
@@ -676,6 +939,18 @@ def _disjunction(ctx, o, f, K, pre, loop, tail):
         if r.kind == 'wouldraise':
             o.refute(f, r.stmt, r.stmt, f"`|` fold raises for an operand value that is {SIGN_NAME[s]}: {r.why}")
             ok = False
+        elif want_ret and r.kind in ('break', 'fall') and any(isinstance(st, (ast.Assign, ast.AugAssign, ast.AnnAssign)) for st in r.executed):
+            retn = tail[0].value.id if len(tail) == 1 and isinstance(tail[0], ast.Return) and isinstance(tail[0].value, ast.Name) else None
+            keeps = [st for st in r.executed if isinstance(st, ast.Assign) and len(st.targets) == 1 and _name(st.targets[0], retn)
+                     and same(ex.expand(st.value), v)]
+            if r.kind == 'fall' and len(keeps) == 1 and len(tail) == 1 and isinstance(tail[0], ast.Return) and \
+                    _name(tail[0].value, keeps[0].targets[0].id) and not any(isinstance(n, ast.Break) for n in ast.walk(loop)):
+                o.refute(f, keeps[0], keeps[0], f"`|` stores a positive operand value in `{keeps[0].targets[0].id}` and goes on with the next operand: "
+                                                f"the last positive operand wins, expected the first")
+                ok = False
+                continue
+            o.undecided(f, loop, loop, "`|` keeps a positive operand value in a local instead of returning it: shape not followed")
+            return
         elif want_ret and not (r.kind == 'return' and same(r.value, v)):
             o.refute(f, loop, loop, f"`|` does not return a positive operand value as it meets it (outcome: {r.kind} {src(r.value) if r.value else ''})")
             ok = False
@@ -685,6 +960,12 @@ def _disjunction(ctx, o, f, K, pre, loop, tail):
     r = run_block(tail, Ev([]), ex)
     if r.kind == 'return' and isinstance(r.value, ast.Constant) and r.value.value is None:
         pass
+    elif r.kind == 'return' and isinstance(r.value, ast.Name) and any(
+            isinstance(st, ast.Assign) and any(_name(t, r.value.id) for t in st.targets) and isinstance(st.value, ast.Constant)
+            and st.value.value is None for st in pre):
+        if ok:
+            o.undecided(f, r.stmt, r.stmt, f"`|` returns the local `{r.value.id}` after the loop: shape not followed")
+            return
     elif r.kind == 'unknown':
         o.undecided(f, r.stmt, r.stmt, f"`|` tail: {r.why}")
         return
@@ -715,11 +996,19 @@ def _arith(ctx, o, orr, osb, f, K, d, pre, loop, tail, H=None):
         else:
             osb.undecided(f, init, init, "accumulator is not initialised to None")
         return
-    ex = Expander(prog, f, ctx.typer)
+    ex = _fold_expander(prog, f, ctx.typer, K)
     found_op = None
     ok = True
     for sv, sa in itertools.product(SIGNS, SIGNS):
-        r = run_block(loop.body, Ev([(v, sv, 'sign'), (accn, sa, 'sign')]), ex)
+        ev_ = Ev([(v, sv, 'sign'), (accn, sa, 'sign')])
+
+        def chosen(e):
+            """the alternative of a conditional update (`acc = v if acc is None else acc + v`) taken in this case"""
+            try:
+                return ev_.select(e)
+            except (U.Unknown, U.WouldRaise):
+                return e
+        r = run_block(loop.body, ev_, ex)
         case = f"operand value {SIGN_NAME[sv]}, accumulator {SIGN_NAME[sa]}"
         if r.kind == 'unknown':
             osb.undecided(f, r.stmt, r.stmt, f"{K} fold ({case}): {r.why}")
@@ -751,13 +1040,17 @@ def _arith(ctx, o, orr, osb, f, K, d, pre, loop, tail, H=None):
             return
         st = stores[0]
         if sa is None:
-            val = ex.expand(st.value) if isinstance(st, (ast.Assign, ast.AnnAssign)) else None
+            val = chosen(ex.expand(st.value, stop={acc})) if isinstance(st, (ast.Assign, ast.AnnAssign)) else None
             if val is not None and same(val, v):
                 continue
             if isinstance(st, ast.AugAssign):
                 osb.refute(f, st, st, f"{K} combines into an empty accumulator ({case}): None {SYM.get(type(st.op), '?')}= value raises TypeError")
-            else:
+            elif isinstance(val, ast.Constant) or facts.const_num(val) is not None or (
+                    isinstance(val, ast.BinOp) and (same(val.left, accn) or same(val.right, accn) or same(val.left, v) or same(val.right, v))):
                 osb.refute(f, st, st, f"{K} starts from `{src(val)}` instead of the first informative operand's value")
+            else:
+                osb.undecided(f, st, st, f"{K}: the first informative operand is taken as `{src(val)[:60]}`")
+                return
             ok = False
             continue
         # combine
@@ -767,7 +1060,7 @@ def _arith(ctx, o, orr, osb, f, K, d, pre, loop, tail, H=None):
             if same(rhs, v):
                 this = (type(st.op), False)
         elif isinstance(st, ast.Assign):
-            rhs = ex.expand(st.value, stop={acc})
+            rhs = chosen(ex.expand(st.value, stop={acc}))
             if isinstance(rhs, ast.BinOp):
                 if same(rhs.left, accn) and same(rhs.right, v):
                     this = (type(rhs.op), False)
@@ -813,7 +1106,7 @@ def _arith(ctx, o, orr, osb, f, K, d, pre, loop, tail, H=None):
                 orr.undecided(f, r.stmt or f.node, r.stmt or f.name, f"fold helper {f.name} does not simply return its accumulator "
                                                                    f"(accumulator {SIGN_NAME[sa]})")
                 return
-        tf, texn = H.tf, Expander(prog, H.tf, ctx.typer)
+        tf, texn = H.tf, _fold_expander(prog, H.tf, ctx.typer, K)
         if H.tacc is None:
             tail, tacc = [ast.Return(value=_e('__fold_result__'))], _e('__fold_result__')
             ast.fix_missing_locations(tail[0])
@@ -923,6 +1216,36 @@ def _range_cover(clause, var):
     return cov, bad
 
 
+_BUILTIN_CALLS = {'isinstance', 'type', 'len', 'list', 'sorted', 'set', 'tuple', 'dict', 'range', 'any', 'all', 'min', 'max', 'iter',
+                  'enumerate', 'zip', 'int', 'float', 'str', 'repr', 'bool', 'abs', 'sum', 'RuntimeError', 'ValueError', 'TypeError',
+                  'datetime', 'timedelta', 'frozenset', 'reversed', 'map', 'filter', 'print', 'id', 'hash', 'getattr', 'hasattr'}
+
+
+def _unfollowed(ctx, f, names):
+    """calls in f that receive one of `names` and whose body the guard collection did not look into (a call of a
+    package function that is not a same-class / inherited / module helper with plain arguments, or any call the rule
+    cannot resolve): 'no guard found' is only a refutation when there is none"""
+    out = []
+    cfg = cfg_of(f)
+    for c in [n for n in walk_no_nested(f.node) if isinstance(n, ast.Call)]:
+        args = list(c.args) + [k.value for k in c.keywords]
+        if not any(U.mentions(a, n) for a in args for n in names):
+            continue
+        fn = c.func
+        if isinstance(fn, ast.Name) and fn.id in _BUILTIN_CALLS:
+            continue
+        if isinstance(fn, ast.Attribute) and not (isinstance(fn.value, ast.Name) and (fn.value.id in ('self', 'cls') or fn.value.id in ctx.prog.classes)) \
+                and not (isinstance(fn.value, ast.Call) and _name(fn.value.func, 'super')):
+            continue                    # a method of some value (d.keys(), x.weekday() ..): not a validator of ours
+        h = U.helper_of(ctx.prog, f, c)
+        followed = h is not None and not any(isinstance(a, ast.Starred) for a in c.args) and not any(k.arg is None for k in c.keywords)
+        if isinstance(fn, ast.Name) and fn.id in ctx.prog.classes and h is None:
+            continue                    # building another object does not validate this one's arguments
+        if not followed:
+            out.append(c)
+    return out
+
+
 def _weekday_guard(ctx, o, f, gs, subject, what, keys: bool):
     """a RuntimeError raise, universally bound over `subject` (a list of week days / the keys of a mapping)"""
     cov = set()
@@ -1004,6 +1327,10 @@ def _weekday_guard(ctx, o, f, gs, subject, what, keys: bool):
                 if not any(U.sign_atom(a, p) for cl in g.clauses for a, p in cl):
                     o.undecided(g.func, g.raise_node, it, f"{what}: a check iterates `{src(it)}` in an unrecognised way")
                     return
+    un = _unfollowed(ctx, f, [subject])
+    if un:
+        o.undecided(f, un[0], un[0], f"{what}: no 0..6 guard found, but `{src(un[0])[:60]}` receives `{subject}` and was not looked into")
+        return
     o.refute(f, f.node, f"missing:{what}", f"{what}: no RuntimeError guard rejects values outside 0..6 "
              f"({'keys of the units_per_day mapping' if keys else 'the days list'} are never range checked on the way to the day table)")
 
@@ -1052,6 +1379,10 @@ def _start_end_guard(ctx, o, f, gs, cls):
                 if U.mentions(a, 'start') and U.mentions(a, 'end') and not U.is_mode_atom(a, p):
                     o.undecided(g.func, g.raise_node, a, f"{cls}: a raise relates start and end in an unrecognised way")
                     return
+    un = _unfollowed(ctx, f, ['start', 'end'])
+    if un:
+        o.undecided(f, un[0], un[0], f"{cls}: no start/end guard found, but `{src(un[0])[:60]}` receives the bounds and was not looked into")
+        return
     o.refute(f, f.node, f"missing:{cls}:start>end", f"{cls}: no reachable RuntimeError guard compares start with end: "
              f"a validity interval with start after end is accepted")
 
@@ -1113,6 +1444,10 @@ def _validation(ctx):
                 o.site(f, g.raise_node, f"`{other} == 0` -> RuntimeError")
         elif unknown:
             o.undecided(f, unknown[0].raise_node, unknown[0].raise_node, f"division guard: {unknown[1].why}")
+        elif _unfollowed(ctx, f, [other]) and not all(
+                isinstance(c.func, ast.Attribute) and c.func.attr.endswith('prepare_calendar') for c in _unfollowed(ctx, f, [other])):
+            un = _unfollowed(ctx, f, [other])[0]
+            o.undecided(f, un, un, f"no `{other} == 0` guard found, but `{src(un)[:60]}` receives `{other}` and was not looked into")
         else:
             o.refute(f, f.node, 'missing:other == 0', "`calendar / 0` is accepted: no RuntimeError guard on `other == 0` "
                      "(the quotient calendar would raise ZeroDivisionError at query time)")
@@ -1297,6 +1632,29 @@ def _elem_of(leaf, bindings):
     return None
 
 
+def _delegated_writes(ctx, mf, field, kind):
+    """calls `self.<writer>(args)` in mf where <writer> is another method of the class that stores into the field:
+    [(call node, writer, True when every argument is a parameter of mf handed on unchanged)]"""
+    out = []
+    if not mf.cls or not mf.params:
+        return out
+    fl = flow_of(mf)
+    for c in [n for n in walk_no_nested(mf.node) if isinstance(n, ast.Call)]:
+        fn = c.func
+        if not (isinstance(fn, ast.Attribute) and _name(fn.value, mf.params[0])):
+            continue
+        w = ctx.prog.find_method(mf.cls, unmangle(fn.attr))
+        if w is None or w.qual == mf.qual or w.kind != 'method':
+            continue
+        if not any(S.entries is None or any(en.kind not in ('state', 'empty') for en in S.entries)
+                   for S in _field_stores(ctx, w, field, kind)):
+            continue
+        args = list(c.args) + [k.value for k in c.keywords]
+        plain = all(isinstance(a, ast.Name) and a.id in mf.params and not [d for d in fl.defs_of(a.id) if d.kind != 'param'] for a in args)
+        out.append((c, w, plain))
+    return out
+
+
 def _nonneg(ctx):
     prog = ctx.prog
     o = ctx.ob('units_nonnegative', 'R3', "every unit value stored into calendar state (Weekly day table, Fixed units, Direct "
@@ -1406,6 +1764,11 @@ def _nonneg(ctx):
             ci = prog.cls(cls)
             for mf in list(ci.methods.values()) + list(ci.setters.values()):
                 stores = _field_stores(ctx, mf, field, kind)
+                for c, w, plain in _delegated_writes(ctx, mf, field, kind):
+                    if plain:
+                        o.site(mf, c, f"{cls}.{mf.name} stores through {w.name}({', '.join(src(a) for a in c.args)}), checked there")
+                    else:
+                        o.undecided(mf, c, c, f"{cls}.{mf.name} hands computed values to {w.name}")
                 if not stores:
                     continue
                 ctor = mf.name == '__init__'
@@ -1433,17 +1796,43 @@ def _nonneg(ctx):
                         if r is not None:
                             verdicts.append((r, f"`{src(en.value)[:50]}`", en.value))
                             continue
-                        for lf in _vleaves(en.value):
-                            k = facts.const_num(lf)
-                            if k is not None:
-                                if k < 0:
-                                    verdicts.append((('bad', f"the negative constant {k} is stored as a unit value", lf), '', lf))
-                                continue
+                        def examined(gs, X, values_of):
+                            """a raise of gs looks at X (or at the values of the mapping X) in a way no proof step understood"""
+                            for g in gs:
+                                for t, it in g.binders:
+                                    b = U.items_binding(t, it)
+                                    if values_of and b and b[1] is not None and same(b[2], X):
+                                        return g
+                                for cl in g.clauses:
+                                    for a, p in cl:
+                                        if U.is_mode_atom(a, p) or not (names_in(X) and names_in(X) <= names_in(a)):
+                                            continue
+                                        if values_of and not any(isinstance(n, ast.Attribute) and n.attr in ('values', 'items') for n in ast.walk(a)) \
+                                                and not any(isinstance(n, ast.Subscript) and same(n.value, X) for n in ast.walk(a)):
+                                            continue
+                                        if not values_of and not any(
+                                                (isinstance(n, ast.Compare) and not any(isinstance(o_, (ast.In, ast.NotIn)) for o_ in n.ops)
+                                                 and any(same(x, X) for x in [n.left] + n.comparators))
+                                                or (isinstance(n, ast.Call) and any(same(x, X) for x in n.args)
+                                                    and not (isinstance(n.func, ast.Name) and n.func.id in ('type', 'isinstance', 'len')))
+                                                for n in ast.walk(a)):
+                                            continue
+                                        return g
+                            return None
+
+                        def judge(f, stmt, lf, gs, binds):
                             r = prove_path(f, stmt, lf, gs)
                             if r is None:
                                 r = prove_guarded(f, stmt, lf, gs, ctor)
                             if r is None:
                                 D = _elem_of(lf, binds)
+                                g_ = examined(gs, D, True) if D is not None else examined(gs, lf, False)
+                                if D is not None and prove_all(f, stmt, D, gs, ctor) is None and g_ is not None:
+                                    return ('unk', f"a raise examines the values of `{src(D)}` in a way the rule does not understand "
+                                                   f"(`{U.clause_text(g_.clauses[0])[:60] if g_.clauses else ''}`)", lf)
+                                if D is None and g_ is not None:
+                                    return ('unk', f"a raise examines `{src(lf)[:40]}` in a way the rule does not understand "
+                                                   f"(`{U.clause_text(g_.clauses[0])[:60] if g_.clauses else ''}`)", lf)
                                 if D is not None:
                                     r = prove_all(f, stmt, D, gs, ctor)
                                     if r is None:
@@ -1454,6 +1843,21 @@ def _nonneg(ctx):
                                                 f"check on every path: negative units are accepted", lf)
                                 else:
                                     r = ('unk', f"stored value `{src(lf)[:60]}` is not a parameter or an element of one", lf)
+                            return r
+                        for lf in _vleaves(en.value):
+                            k = facts.const_num(lf)
+                            if k is not None:
+                                if k < 0:
+                                    verdicts.append((('bad', f"the negative constant {k} is stored as a unit value", lf), '', lf))
+                                continue
+                            r = judge(f, stmt, lf, gs, binds)
+                            if r != 'ok' and S.sub and S.outer_func is not f:
+                                # stored inside a table-building helper: the caller may have checked the argument before the call
+                                from sa.flow import subst
+                                r2 = judge(S.outer_func, S.outer, subst(lf, S.sub), U.guard_facts(prog, ctx.typer, S.outer_func),
+                                           [(t, subst(it, S.sub)) for t, it in binds])
+                                if r2 == 'ok' or (r2[0] == 'bad' and r[0] != 'bad') or (r2[0] == 'unk' and r[0] == 'bad'):
+                                    r = r2
                             verdicts.append((r, f"`{src(lf)[:50]}`", lf))
                     if any(v[0] is None for v in verdicts):
                         for r, what, node in verdicts:
@@ -1463,7 +1867,13 @@ def _nonneg(ctx):
                         continue
                     bad = [v for v in verdicts if v[0] != 'ok']
                     for r, what, node in bad:
-                        if r[0] == 'bad':
+                        un = []
+                        if r[0] == 'bad' and 'without a' in r[1]:
+                            nm = sorted(names_in(node) & (set(f.params) | set(S.outer_func.params)))
+                            un = (_unfollowed(ctx, f, nm) + (_unfollowed(ctx, S.outer_func, nm) if S.outer_func is not f else [])) if nm else []
+                        if un:
+                            o.undecided(f, stmt, stmt, f"{cls}.{f.name}: no `< 0` check found for {what}, but `{src(un[0])[:60]}` receives it and was not looked into")
+                        elif r[0] == 'bad':
                             o.refute(f, stmt, stmt, f"{cls}.{f.name}: {r[1]}")
                         else:
                             o.undecided(f, stmt, stmt, f"{cls}.{f.name}: {r[1]}")
@@ -1526,7 +1936,7 @@ def _dead_validators(ctx):
 
 
 # ====================================================================================================== leaf calendars
-def _param_field(ctx, init, param):
+def _param_field(ctx, init, param, _depth=0):
     """field of self that __init__ stores the (unchanged) parameter into; None if there is not exactly one"""
     ex = Expander(ctx.prog, init, ctx.typer)
     cfg = cfg_of(init)
@@ -1534,6 +1944,17 @@ def _param_field(ctx, init, param):
     for st, tgt, val in facts.attr_stores(init):
         if val is not None and _name(tgt.value, init.params[0]) and _name(ex.expand(val, cfg.node_of(st)), param):
             hits.append((st, tgt.attr))
+    if not hits and _depth < 2:
+        # the parameter handed on unchanged to an inherited / same-class initialiser that stores it
+        for c in [n for n in walk_no_nested(init.node) if isinstance(n, ast.Call)]:
+            h = U.helper_of(ctx.prog, init, c)
+            if h is None or h.kind != 'method' or any(isinstance(a, ast.Starred) for a in c.args):
+                continue
+            for q, a in zip(list(h.params)[1:], facts.bound_args(c, h)):
+                if a is not None and _name(ex.expand(a, cfg.node_containing(c)), param):
+                    sub = _param_field(ctx, h, q, _depth + 1)
+                    if sub is not None:
+                        hits.append((cfg.node_containing(c).ast if cfg.node_containing(c) is not None else c, sub[1]))
     return hits[0] if len(hits) == 1 else None
 
 
@@ -1721,6 +2142,11 @@ def _direct(ctx, o, field):
     ci = prog.cls('DirectCalendar')
     for w in list(ci.methods.values()) + list(ci.setters.values()):
         stores = _field_stores(ctx, w, field, 'mapping')
+        for c, w2, plain in _delegated_writes(ctx, w, field, 'mapping'):
+            if plain:
+                o.site(w, c, f"DirectCalendar.{w.name} fills the table through {w2.name}")
+            else:
+                o.undecided(w, c, c, f"DirectCalendar.{w.name} hands a computed mapping to {w2.name}")
         for S in stores:
             stmt, entries = S.outer, S.entries
             if entries is None:
@@ -1873,6 +2299,20 @@ def _none_zero(ctx):
         for s in (None, 0, 1):
             r = run_block(f.body, Ev([(c, s, 'sign')]), ex)
             if r.kind in ('unknown',):
+                # a return path that computes the answer from the calendar's internals / the date in another way than
+                # through the calendar's own get_available_units(date) is a wrong construct whatever its condition is
+                for rt in [n for n in walk_no_nested(f.node) if isinstance(n, ast.Return) and n.value is not None]:
+                    for conds, leaf in _ret_leaves(ex.expand(rt.value)):
+                        asks = any(isinstance(x, ast.Call) and isinstance(x.func, ast.Attribute) and x.func.attr == 'get_available_units'
+                                   for x in ast.walk(leaf))
+                        if not asks and facts.const_num(leaf) is None and not isinstance(leaf, ast.Constant) and \
+                                (U.mentions(leaf, date) or any(isinstance(x, ast.Attribute) and x.attr == 'calendar' for x in ast.walk(leaf))):
+                            cl = U.path_clauses(prog, f, rt, ctx.typer)
+                            o.refute(f, rt, rt, f"Resource.get_available_units answers `{src(leaf)[:60]}`"
+                                     + (" when " + ' and '.join(U.clause_text(c) for c in cl) if cl else '') +
+                                     f" without asking its calendar's get_available_units({date}): the answer is not the calendar's value "
+                                     f"for the date (validity bounds, combinators and overrides are bypassed)")
+                            return
                 o.undecided(f, r.stmt, r.stmt, f"Resource.get_available_units: {r.why}")
                 return
             if r.kind != 'return':
@@ -1995,12 +2435,11 @@ def _search_bounded(ctx, f):
     for n in walk_no_nested(f.node):
         if isinstance(n, ast.Raise) or (isinstance(n, ast.Expr) and isinstance(n.value, ast.Constant)):
             skip |= {id(x) for x in ast.walk(n)}
-    for n in walk_no_nested(f.node):
-        if isinstance(n, ast.Constant) and id(n) not in skip and isinstance(n.value, (int, float)) and not isinstance(n.value, bool) \
-                and n.value not in (0, 1):
-            return 'unknown', f"no deviation for max_days 1..4, but the constant {n.value!r} keeps that from generalising"
-    for d in f.node.args.defaults + f.node.args.kw_defaults:
-        pass
+    for st in f.body:
+        for n in [st] + list(walk_no_nested(st)):
+            if isinstance(n, ast.Constant) and id(n) not in skip and isinstance(n.value, (int, float)) and not isinstance(n.value, bool) \
+                    and n.value not in (0, 1):
+                return 'unknown', f"no deviation for max_days 1..4, but the constant {n.value!r} keeps that from generalising"
     out = []
     for direction in (1, -1):
         out.append((anchor, f"bounded evaluation, direction {direction:+d}: the earliest candidate with capacity is returned unmodified"))
@@ -2081,11 +2520,13 @@ def _search(ctx):
     def one(o, f):
         rec = _Rec()
         strict(rec, f)
-        if rec.bad() and not rec.refuted():
-            # the loop is not in the armed `while counter < max_days` shape: evaluate the function as written on small
-            # inputs (every horizon 1..4, both directions, capacity on no / one / two adjacent / all days)
+        if rec.bad() or rec.refuted():
+            # the loop is not in the armed `while counter < max_days` shape (or the shape rule found fault with it):
+            # evaluate the function as written on small inputs (every horizon 1..4, both directions, capacity on
+            # no / one / two adjacent / all days).  A refutation needs a concrete deviating input when the function
+            # can be evaluated; a shape complaint that no input confirms is dropped.
             kind, data = _search_bounded(ctx, f)
-            if kind == 'refute':
+            if kind == 'refute' and not rec.refuted():
                 for node, construct, msg in data:
                     o.refute(f, node, construct, msg)
                 return
@@ -2093,7 +2534,8 @@ def _search(ctx):
                 for node, note in data:
                     o.site(f, node, note)
                 return
-            rec.undecided(f, f.node, 'bounded evaluation', f"bounded evaluation of the search not possible: {data}")
+            if kind == 'unknown' and not rec.refuted():
+                rec.undecided(f, f.node, 'bounded evaluation', f"bounded evaluation of the search not possible: {data}")
         rec.replay(o)
 
     def strict(o, f):
